@@ -130,6 +130,24 @@ def _gen_core(rng, tier):
                 strict = w != "_" and w[0] == "1"
                 rows = G.rand_alignment(rng, [fmt], strict, L=L, nrows=rng.choice([1, 2, 4]))
                 yield Case("filert", [fmt, ext, w, popts_for(w), "auto", G.xrows(rows)], True, "file-%s-%s" % (fmt, ext))
+    # 4b. several alignments written one after the other to one plain / .gz / .xz file (one write per alignment, as the
+    # commands do), small and large ones in every order: what is read back is the list that was written
+    for ext in ("plain", "gz", "xz"):
+        for _ in range(3 if not thorough else 12):
+            w = rng.choice(G.PHYLIP_WOPTS)
+            strict = w[0] == "1"
+            sizes = rng.choice([["s", "L"], ["L", "s"], ["s", "s", "L", "s"], ["s", "L", "L"], ["L", "L"], ["s", "m", "L", "m", "s"]])
+            als = []
+            for z in sizes:
+                nr, L = {"s": (rng.randint(1, 3), rng.randint(1, 30)), "m": (rng.randint(3, 6), rng.randint(150, 400)),
+                         "L": (rng.randint(6, 10), rng.randint(500, 900))}[z]
+                als.append(G.rand_alignment(rng, ["phylip"], strict, L=L, nrows=nr))
+            yield Case("multirtf", [ext, w, popts_for(w), ";".join(G.xrows(a) for a in als)], True, "multi-phylip-file-%s" % ext)
+        # raw strings of sizes around the writer's buffer size (4096) and its multiples
+        for _ in range(6 if not thorough else 40):
+            k = rng.randint(2, 6)
+            sizes = [rng.choice([0, 1, 7, 100, 1000, 4095, 4096, 4097, 5000, 8191, 8192, 8193, 20000, rng.randint(1, 9000)]) for _ in range(k)]
+            yield Case("filechunks", [ext, ",".join(map(str, sizes))], True, "file-chunks-%s" % ext)
     # 5. multi-Phylip streams: lists of 1..4 alignments
     for w in G.PHYLIP_WOPTS:
         strict = w[0] == "1"
